@@ -59,6 +59,7 @@ pub struct Sim {
     pub tree_sigs: Fnv,
     /// digest of everything observed so far, recorded after every step (twin comparison)
     pub step_digs: Vec<u64>,
+    malformed_before: u64,
     /// handle on the repo's CachingCustomHandler state, when it is plugged in
     pub caching: Option<cw_multi_test::custom_handler::CachingCustomHandlerState<SimMsg, SimQuery>>,
     pub custom_execs_seen: Vec<String>,
@@ -238,6 +239,7 @@ impl Sim {
             touched: BTreeSet::new(),
             tree_sigs: Fnv::new(),
             step_digs: vec![],
+            malformed_before: 0,
             caching,
             custom_execs_seen: vec![],
             custom_queries_seen: vec![],
@@ -268,8 +270,24 @@ impl Sim {
         resolve_msg(&self.model.names, m, sender, &bal)
     }
 
+    fn malformed_count(&self) -> u64 {
+        self.model.faults.iter().filter(|(k, _)| k.starts_with("malformed_response")).map(|(_, v)| *v).sum()
+    }
+
+    /// Properties a wrong number or order of replies is attributed to: a malformed response is "the same
+    /// as any other contract error", so when one occurred in this step the reply it must (or must
+    /// not) trigger belongs to C13 as well.
+    fn reply_props(&self) -> Vec<&'static str> {
+        let mut v = vec!["C03", "C02"];
+        if self.malformed_count() > self.malformed_before {
+            v.push("C13");
+        }
+        v
+    }
+
     fn pre_step(&mut self) -> BTreeMap<Vec<u8>, Vec<u8>> {
         let snap = self.app.storage().snapshot();
+        self.malformed_before = self.malformed_count();
         let keys: Vec<Vec<u8>> = snap.keys().cloned().collect();
         self.world.0.borrow_mut().names.root_keys = keys.clone();
         self.model.names.root_keys = keys;
@@ -299,6 +317,18 @@ impl Sim {
             self.dig.write_str(&r.kind);
             self.dig.write_str(&r.contract);
             self.dig.write_u64(r.nid as u64);
+            // everything a contract saw belongs to the observable behaviour of the run
+            self.dig.write_u64(r.height);
+            self.dig.write_u64(r.time_nanos);
+            self.dig.write_str(&r.chain_id);
+            self.dig.write_str(&r.sender);
+            for (d, a) in &r.funds {
+                self.dig.write_str(d);
+                self.dig.write(&a.to_le_bytes());
+            }
+            for q in r.queries.iter().chain(r.reads.iter()).chain(r.post_reads.iter()) {
+                self.dig.write_str(q);
+            }
         }
         let flags = std::mem::take(&mut self.model.flags);
         for (p, c, d) in flags {
@@ -409,7 +439,9 @@ impl Sim {
             let after = self.app.storage().snapshot();
             if &after != before {
                 let d = describe_diff(before, &after);
-                let mut props = vec!["C01", "C02", "C05", "C09"];
+                // (C10: what a failed transaction left in the root store is what every query through App reads
+                // from then on, although none of it was committed)
+                let mut props = vec!["C01", "C02", "C05", "C09", "C10"];
                 props.extend_from_slice(extra_props);
                 if self.model.faults.keys().any(|k| k.starts_with("malformed_response")) {
                     props.push("C13");
@@ -462,7 +494,8 @@ impl Sim {
                 let is_reply = r.kind == "reply" || m.kind == "reply";
                 let d = format!("{}: real ran {} node {} on {}", at, r.kind, r.nid, r.contract);
                 if is_reply {
-                    self.v(&["C03", "C02"], "reply_order_or_count", d);
+                    let props = self.reply_props();
+                    self.v(&props, "reply_order_or_count", d);
                 } else {
                     self.v(&["C03", "C02", "C01", "C05"], "execution_order", d);
                 }
@@ -525,7 +558,8 @@ impl Sim {
             let (longer, who) = if real.len() > exp.len() { (&real[n], "real ran an extra") } else { (&exp[n], "real did not run the expected") };
             let d = format!("{}: {} invocation #{}: {} node {} on {} (real total {}, expected {})", what, who, n, longer.kind, longer.nid, longer.contract, real.len(), exp.len());
             if longer.kind == "reply" {
-                self.v(&["C03", "C02"], "reply_order_or_count", d);
+                let props = self.reply_props();
+                self.v(&props, "reply_order_or_count", d);
             } else {
                 self.v(&["C03", "C02", "C01", "C05", "C13"], "execution_order", d);
             }
@@ -704,6 +738,10 @@ impl Sim {
         self.activate();
         let r = self.step_inner(op);
         self.dig.write_u64(self.app.storage().digest());
+        let bi = self.app.block_info();
+        self.dig.write_u64(bi.height);
+        self.dig.write_u64(bi.time.nanos());
+        self.dig.write_str(&bi.chain_id);
         self.step_digs.push(self.dig.finish());
         r
     }
